@@ -34,6 +34,8 @@ func main() {
 	}
 	replace := map[string]string{}
 	points := 0
+	// package suffix: function entries only (its loops run tens of thousands of iterations per sort)
+	points += instrumentDir(filepath.Join(repo, "suffix"), filepath.Join(out, "suffix"), "suffix", false, replace)
 	for _, e := range entries {
 		name := e.Name()
 		if e.IsDir() || !strings.HasSuffix(name, ".go") || strings.HasSuffix(name, "_test.go") || name == "export_verif.go" {
@@ -48,7 +50,7 @@ func main() {
 		if f.Name.Name != "lz" {
 			continue
 		}
-		n := instrument(f)
+		n := instrument(f, true)
 		if n == 0 {
 			continue
 		}
@@ -98,19 +100,81 @@ func yieldStmt() ast.Stmt {
 	return &ast.ExprStmt{X: &ast.CallExpr{Fun: ast.NewIdent("verifYield")}}
 }
 
-func instrument(f *ast.File) int {
+// instrumentDir rewrites the non-test files of one package directory and adds the yield function file.
+func instrumentDir(dir, out, pkg string, loops bool, replace map[string]string) int {
+	entries, err := os.ReadDir(dir)
+	if err != nil {
+		fail(err)
+	}
+	if err := os.MkdirAll(out, 0o755); err != nil {
+		fail(err)
+	}
+	points := 0
+	for _, e := range entries {
+		name := e.Name()
+		if e.IsDir() || !strings.HasSuffix(name, ".go") || strings.HasSuffix(name, "_test.go") || name == "export_verif.go" {
+			continue
+		}
+		src := filepath.Join(dir, name)
+		fset := token.NewFileSet()
+		f, err := parser.ParseFile(fset, src, nil, parser.ParseComments)
+		if err != nil {
+			fail(err)
+		}
+		if f.Name.Name != pkg {
+			continue
+		}
+		n := instrument(f, loops)
+		if n == 0 {
+			continue
+		}
+		points += n
+		dst := filepath.Join(out, name)
+		w, err := os.Create(dst)
+		if err != nil {
+			fail(err)
+		}
+		if err := (&printer.Config{Mode: printer.UseSpaces | printer.TabIndent, Tabwidth: 8}).Fprint(w, fset, f); err != nil {
+			fail(err)
+		}
+		w.Close()
+		replace[src] = dst
+	}
+	hook := filepath.Join(out, "zz_verif_yield.go")
+	err = os.WriteFile(hook, []byte("//go:build verif\n\npackage "+pkg+"\n\nfunc verifYield() {\n\tif VerifYield != nil {\n\t\tVerifYield()\n\t}\n}\n"), 0o644)
+	if err != nil {
+		fail(err)
+	}
+	replace[filepath.Join(dir, "zz_verif_yield.go")] = hook
+	return points
+}
+
+// suffixEntries are the functions of package suffix that get a yield point: the stages of a sort, called a few
+// times per Sort. The bucket accessors and comparison helpers run millions of times and stay uninstrumented.
+var suffixEntries = map[string]bool{"Sort": true, "sort": true, "newBBucketsPair": true, "bStarPositions": true, "ssort": true,
+	"trSort": true, "trIntroSort": true, "LCP": true, "_lcp": true, "InvertSA": true, "Segments": true, "scanLCP": true}
+
+func instrument(f *ast.File, loops bool) int {
 	n := 0
 	ast.Inspect(f, func(x ast.Node) bool {
 		var body *ast.BlockStmt
 		switch s := x.(type) {
 		case *ast.FuncDecl:
-			body = s.Body
+			if loops || suffixEntries[s.Name.Name] {
+				body = s.Body
+			}
 		case *ast.FuncLit:
-			body = s.Body
+			if loops {
+				body = s.Body
+			}
 		case *ast.ForStmt:
-			body = s.Body
+			if loops {
+				body = s.Body
+			}
 		case *ast.RangeStmt:
-			body = s.Body
+			if loops {
+				body = s.Body
+			}
 		}
 		if body != nil {
 			body.List = append([]ast.Stmt{yieldStmt()}, body.List...)
